@@ -55,6 +55,9 @@ static inline void h_prepare_attr(myth_thread_attr_t * a, int v) {
   /* what the getters report is what creation will use */
   { int ds = -1; size_t s0 = 0; int rc = myth_thread_attr_getdetachstate(a, &ds); MV_CHECK(rc == 0 && ds == 0, "a freshly initialised attribute object reports detach state %d (rc %d), expected joinable (0)", ds, rc);
     rc = myth_thread_attr_getstacksize(a, &s0); MV_CHECK(rc == 0 && s0 >= 4096, "a freshly initialised attribute object reports stack size %zu (rc %d)", s0, rc); }
+  /* a guard size is a separate setting: it must not disturb the others */
+  { size_t s0 = 0, s1 = 0, g = 0; myth_thread_attr_getstacksize(a, &s0); int rc = myth_thread_attr_setguardsize(a, 8192); int r2 = myth_thread_attr_getguardsize(a, &g); myth_thread_attr_getstacksize(a, &s1);
+    MV_CHECK(rc == 0 && r2 == 0 && g == 8192 && s1 == s0, "setguardsize(8192) returned %d; the attribute then reports guard size %zu (rc %d) and stack size %zu (was %zu)", rc, g, r2, s1, s0); }
   size_t ss = v_stack(v);
   if (v == V_EX_HINT || v == V_EX_HINT_PF) { static const unsigned long h_hint[2] = { 0x1122334455667788UL, 0 }; a->custom_data_size = sizeof h_hint; a->custom_data = (void *)h_hint; }
   if (ss) { int rc = myth_thread_attr_setstacksize(a, ss); size_t s1 = 0; int r2 = myth_thread_attr_getstacksize(a, &s1);
@@ -102,8 +105,10 @@ static inline void h_barrier_init(myth_barrier_t * b, int with_attr, unsigned n)
 }
 static inline void h_join_counter_init(myth_join_counter_t * j, int with_attr, int n) {
   H_DIRTY(j);
-  if (with_attr) { myth_join_counterattr_t a; H_DIRTY(&a); myth_join_counterattr_init(&a); myth_join_counter_init(j, &a, n); myth_join_counterattr_destroy(&a); }
-  else myth_join_counter_init(j, 0, n);
+  int rc;
+  if (with_attr) { myth_join_counterattr_t a; H_DIRTY(&a); myth_join_counterattr_init(&a); rc = myth_join_counter_init(j, &a, n); myth_join_counterattr_destroy(&a); }
+  else rc = myth_join_counter_init(j, 0, n);
+  MV_CHECK(rc == 0, "myth_join_counter_init(%d) returned %d", n, rc);
 }
 static inline void h_felock_init(myth_felock_t * f, int with_attr) {
   H_DIRTY(f);
